@@ -518,22 +518,16 @@ theorem rebuildService_sound (c : Ctl) (sv : Svc) (hs : ResyncSound c) :
   exact hr a k h
 
 theorem recompute_fold_sound (l : List Svc) (c : Ctl) (hs : ResyncSound c) :
-    ResyncSound (l.foldl recomputeStep (c, false)).1 := by
-  have hgen : ∀ (l : List Svc) (acc : Ctl × Bool), ResyncSound acc.1 → ResyncSound (l.foldl recomputeStep acc).1 := by
-    intro l
-    induction l with
-    | nil => intro acc h; exact h
-    | cons sv t ih =>
-      intro acc h
-      simp only [List.foldl_cons]
-      apply ih
-      unfold recomputeStep
-      split
-      · exact h
-      · split
-        · exact h
-        · exact rebuildService_sound acc.1 _ h
-  exact hgen l (c, false) hs
+    ResyncSound (l.foldl recomputeStep c) := by
+  induction l generalizing c with
+  | nil => exact hs
+  | cons sv t ih =>
+    simp only [List.foldl_cons]
+    apply ih
+    unfold recomputeStep
+    split
+    · exact hs
+    · exact rebuildService_sound c _ hs
 
 theorem pod_label_edit_sound (c : Ctl) (v : Pod) (c' : Ctl) (hph : v.phase ≠ "F") (hstep : stepC c (.pod v) = some c')
     (hs : ResyncSound c) (hwf : WF { c with pods := upsertBy (fun x => x.ns = v.ns ∧ x.name = v.name) v c.pods })
@@ -563,7 +557,7 @@ theorem pod_label_edit_sound (c : Ctl) (v : Pod) (c' : Ctl) (hph : v.phase ≠ "
   | none => rw [hfo] at hgood; exact absurd hgood (fun h => h)
   | some o =>
     rw [hfo] at hgood
-    obtain ⟨hch, hsa, hnode, hip, hok, hcached, hnowait, _, hoip⟩ := hgood
+    obtain ⟨hch, hsa, hnode, hip, hok, hcached, hnowait, _, hoip, hwl⟩ := hgood
     have hrun : runAll c1 [podEvOf c v] = recompute c1 v := by
       have hev : podEvOf c v = Ev.podUpd o v := by unfold podEvOf; rw [hfo]
       have htw : takeWaiting c1 v.ip = (c1, []) := by
@@ -579,8 +573,8 @@ theorem pod_label_edit_sound (c : Ctl) (v : Pod) (c' : Ctl) (hph : v.phase ≠ "
         simp
       rw [hev]
       have hid : idReplays c1 o v = [] := by
-        unfold idReplays
-        simp [hsa, hnode]
+        unfold idReplays idChanged
+        simp [hsa, hnode, hwl]
       simp [runAll, runEvents, handle, hfind, hpe, hid]
     show ResyncSound (runAll c1 _)
     rw [hrun, recompute_eq]
